@@ -18,7 +18,9 @@
 (*               read only when a literal is too large to be sent as octets *)
 (* Output: <<"VIOL", record, clause, where>> per violated clause,           *)
 (* <<"UNJUDGED", record>> when BODY[], BODY[HEADER] or BODY[TEXT] was not   *)
-(* returned at all, <<"DONE", record>> for every record.                    *)
+(* returned at all, <<"DONE", record>> for every record.  <<"INFO", record,  *)
+(* "nested-header-text", k>> is an observation outside the property: for a  *)
+(* part k, BODY[k.HEADER] followed by BODY[k.TEXT] is not BODY[k].           *)
 (***************************************************************************)
 EXTENDS MsgData, Json, IOUtils
 
@@ -33,6 +35,11 @@ Next ==
        IN /\ IF Judgeable(r) /\ (r.how = "copy" => Judgeable(src))
              THEN \A v \in Bad(r, src) : PrintT(<<"VIOL", cid, v[1], v[2]>>)
              ELSE PrintT(<<"UNJUDGED", cid>>)
+          /\ \A k \in {"1", "2"} :
+                (/\ {k, k \o ".HEADER", k \o ".TEXT"} \subseteq Names(r)
+                 /\ ~Sec(r, k).a.big
+                 /\ Sec(r, k \o ".HEADER").a.b \o Sec(r, k \o ".TEXT").a.b # Sec(r, k).a.b)
+                => PrintT(<<"INFO", cid, "nested-header-text", k>>)
           /\ PrintT(<<"DONE", cid>>)
     /\ done' = TRUE
     /\ UNCHANGED cid
